@@ -44,7 +44,7 @@ def _protected(path):
     return any(k in PROTECTED_KEYS for k in path if isinstance(k, str))
 
 
-SIMPLE_STR = {'mode': ['const', 'none']}
+SIMPLE_STR = {}
 
 
 def shrink(case, signature, run_fn, max_exec=400, log=None):
@@ -119,7 +119,11 @@ def shrink(case, signature, run_fn, max_exec=400, log=None):
                         cands.append(c)
             elif isinstance(cur, str):
                 key = path[-1] if path else None
-                for c in SIMPLE_STR.get(key, []):
+                if key == 'mode':
+                    simple = ['const'] if 'ts' in path else (['none'] if 'cond' in path else [])
+                else:
+                    simple = SIMPLE_STR.get(key, [])
+                for c in simple:
                     if c != cur:
                         cands.append(c)
             for c in cands:
